@@ -41,7 +41,7 @@ def jobs(tier):
             j.imported = True
             J.append(j)
     for j in C20.jobs("quick"):
-        if re.match(r"add_counts\.(T8|UE14)_2x2_bad|solve_too_few\.(T8|UE14)_2x2", j.name):
+        if re.match(r"add_counts\.(T8|UE14)_2x2_bad|solve_too_few\.(T8|UE14)_2x2|refused_set_frequency\.|refused_unknown\.", j.name):
             j.name = "vnacal_new." + j.name
             j.canary = False
             j.imported = True
